@@ -214,8 +214,15 @@ def check(desc, col):
     lost = [v for v in front_b if not any(_same(v, w) for w in front_a)]
     extra = [v for v in front_a if not any(_same(v, w) for w in front_b)]
     if lost or extra:
+        key = "front-differs:" + ("lost" if lost else "extra")
+        worse_only = bool(lost) and all(any(all(x <= y * (1 + 1e-5) + 1e-9 for x, y in zip(w, v)) for w in front_b) for v in extra)
+        if sp.get("shape") == "diamond-unfused" and not with_usage and worse_only:
+            # open finding (known_findings.json C14): without fused loops the staged path returns a VALID but worse optimum
+            # on two-producer/one-consumer workloads; a staged result that is better than the exact join (an invalid
+            # mapping: a staged point that no exact-front point weakly dominates) or any difference elsewhere keeps the ordinary key
+            key = "front-differs:unfused-branch:staged-optimum-worse"
         raise Violation(f"fronts differ: exact-join points missing from the staged result {lost[:4]}; staged points not in the "
-                        f"exact front {extra[:4]}; counters={counters}", key="front-differs:" + ("lost" if lost else "extra"))
+                        f"exact front {extra[:4]}; counters={counters}", key=key)
 
 
 N = {"quick": 16, "thorough": 160}
